@@ -14,7 +14,7 @@ Classes(ep) ==
   CASE ep = "tunnel" -> {"hdr-len-0", "hdr-len-4", "hdr-len-7", "hdr-len-huge", "hdr-len-max", "hdr-trunc", "type-random", "type-response", "body-trunc-create", "body-long-create",
                          "body-trunc-chan", "body-long-chan", "body-odd-utf16", "body-trunc-auth", "body-long-auth", "data-decl-long", "data-empty", "data-full-64k", "data-inner-boundaries", "random-bytes", "text-message", "zero-length-message",
                          "keepalive-flood", "data-flood"}
-    [] ep = "legacy-order" -> {"in-before-out", "in-only", "out-only-then-close", "out-twice", "in-twice", "in-unknown-id", "no-id"}
+    [] ep = "legacy-order" -> {"in-before-out", "in-only", "out-only-then-close", "out-only-many", "out-twice", "in-twice", "in-unknown-id", "no-id"}
     [] ep = "authorization" -> {"bare-ntlm", "bare-negotiate", "bare-basic", "embedded-scheme", "one-char", "long-garbage", "ntlm-garbage", "basic-notbase64", "negotiate-garbage", "nul-bytes", "basic-nonutf8", "basic-authservice-away"}
     [] ep = "ntlm-message" -> {"short-negotiate", "trunc-authenticate", "bad-offsets", "challenge-type", "random", "sig-only", "huge"}
     [] ep = "kdcproxy" -> {"random-der", "nested-deep", "empty", "huge-length", "short-message", "trailing"}
